@@ -1779,6 +1779,7 @@ def make_world_externals(world_ref):
              vmap=lambda f, in_axes=0, out_axes=0, **kw: VMapped(f, in_axes, out_axes, **kw),
              jit=_identity_decorator, value_and_grad=_value_and_grad,
              debug=NS("jax.debug", print=_print), device_put=lambda x, *a, **k: x,
+             core=NS("jax.core", Tracer=ExternalClass('jax.core.Tracer')),      # nothing is traced here: isinstance is False
              Array=ExternalClass('jax.Array'),
              sharding=NS("jax.sharding", Sharding=Subscriptable("Sharding")))
     eqx = NS("eqx", Module=EQX_MODULE, field=eqx_field, tree_at=eqx_tree_at,
